@@ -425,6 +425,12 @@ func dCodec(g *G) {
 	for _, f := range floatBoundaries() {
 		g.emit(mkSetFloat(f), "setfloat/boundary")
 	}
+	// the integer setters write into a destination that held -NaN with exponent 77 and a 9-digit coefficient (C06)
+	for _, v := range int64Boundaries() {
+		for _, fn := range []string{"SetInt64", "SetFinite", "ScanInt64"} {
+			g.emit(mkSetInt(fn, v, g.R.between(-100, 100)), "setint/used-destination")
+		}
+	}
 	for i := 0; i < g.pick(4000, 200000); i++ {
 		var f float64
 		switch g.R.Intn(4) {
